@@ -538,3 +538,22 @@ LEVEL_TEXT += _ADD13
 _ADD20 = ' R17.12: type_name and its helpers render types without truncation.'
 EXPLANATION += _ADD20
 LEVEL_TEXT += _ADD20
+
+
+_run_before_r5 = run
+
+
+def run(repo, rep, tier):  # noqa: F811 -- round-5 borrowings appended to the rules above
+    _run_before_r5(repo, rep, tier)
+    if getattr(rep, "borrowed", False):
+        return
+    from ..core import round5 as _r5
+    from ..core.report import Only as _O5
+    from . import c13 as _c13b, c08 as _c08b
+    from ..core import corpus as _corp5
+    _c13b._who_constructs(repo, _O5(rep, {"R13.3b"}), _corp5.explore_all(repo, tier))
+    _c08b._default_literal(repo, _O5(rep, {"R08.7"}))
+
+_ADDR5D = " Borrowed: R13.3b (no generated CodeBuilder(...) for another class carries the caller's dialect: the variant would be stored into a cache it does not have), R08.7 (default literals are rendered as text only where the text evaluates to the default)."
+EXPLANATION += _ADDR5D
+LEVEL_TEXT += _ADDR5D
